@@ -796,3 +796,15 @@ def svd_solve_rules(chk, S):
                        "NaN gradients when singular values coincide (equal observation-noise levels at an exact initial state)", f"{m.relpath}:{fn.lineno}")
     if n == 0:
         r5.unknown("loss constructors with a solve_triu parameter", "none found (anchor changed)", m.relpath)
+    # the same primitive handed over explicitly inside the solvers (the initial-constraint update): a solve of a differentiated solve() must be differentiable too
+    from ..harness import SOLVERS
+    from .c08 import _enclosing_function
+
+    sm = S.p.module(SOLVERS)
+    for node in ast.walk(sm.tree):
+        if isinstance(node, ast.keyword) and node.arg == "solve_triu" and "lstsq" in ast.unparse(node.value):
+            src = ast.unparse(node.value)
+            fn_ = _enclosing_function(sm, node.value.lineno)
+            r5.require(False, f"{fn_} update with {src}", "",
+                       f"solve_triu={src}: jnp.linalg.lstsq differentiates through an SVD, whose derivative divides by differences of singular values -- NaN derivatives (both modes) when the observed factor has "
+                       "repeated or zero singular values, e.g. an initial constraint on diffuse derivatives with a common diffuse_eps", f"{sm.relpath}:{node.value.lineno}")
